@@ -283,6 +283,12 @@ func c19KeyLess(which int, a, b c19Row) (lt, gt bool) {
 
 // c19RunDescriptors: sort rows by the descriptor stack (whichs/ascs/byField) through all three entry points.
 func c19RunDescriptors(n int, whichs []int, ascs []bool, byField bool) {
+	c19RunDescriptorsHow(n, whichs, ascs, byField, 0)
+}
+
+// bulk: 0 = the builder receives one descriptor per ThenWith call; 1 = the whole stack in ONE variadic ThenWith call;
+// 2 = the first descriptor alone, the rest in one call (bulk > 0 checks the builder entry points only)
+func c19RunDescriptorsHow(n int, whichs []int, ascs []bool, byField bool, bulk int) {
 	in := c19Rows("r", n)
 	orig := append([]c19Row{}, in...)
 	var descs []SortDescriptor[c19Row]
@@ -290,7 +296,18 @@ func c19RunDescriptors(n int, whichs []int, ascs []bool, byField bool) {
 	for d := range whichs {
 		dsc := c19Desc(whichs[d], byField, ascs[d])
 		descs = append(descs, dsc)
-		builder = builder.ThenWith(dsc)
+		if bulk == 0 {
+			builder = builder.ThenWith(dsc)
+		}
+	}
+	switch bulk {
+	case 1:
+		builder = builder.ThenWith(descs...)
+	case 2:
+		builder = builder.ThenWith(descs[0]).ThenWith(descs[1:]...)
+	}
+	if bulk > 0 {
+		vfAssert("lemma/builder-holds-every-descriptor", len(builder.GetSortDescriptors()) == len(descs))
 	}
 	// reference: a strictly precedes b lexicographically by the key list
 	less := func(a, b c19Row) bool {
@@ -331,7 +348,13 @@ func c19RunDescriptors(n int, whichs []int, ascs []bool, byField bool) {
 		vfAssert(pfx+"ordered", ordered)
 		vfAssert(pfx+"stable", stable)
 	}
-	switch vfChoose("entry", 3) {
+	var entry int
+	if bulk == 0 {
+		entry = vfChoose("entry", 3)
+	} else {
+		entry = 1 + vfChoose("builder-entry", 2)
+	}
+	switch entry {
 	case 0:
 		var out []c19Row
 		if vfNoPanic("nopanic-sortedlist", func() { out = SortedListBySortDescriptors(descs, in...) }) {
@@ -369,6 +392,18 @@ func vh_C19_Descriptors2() {
 func vh_C19_Descriptors3() {
 	n := vfRange("n", 2, 2+vfTier()) // quick: two records already separate "second key ignored" from "third key ignored"
 	c19RunDescriptors(n, []int{2, 0, 1}, []bool{vfChoose("asc1", 2) == 1, vfChoose("asc2", 2) == 1, vfChoose("asc3", 2) == 1}, false)
+}
+
+// the builder's ThenWith is variadic: a stack of 2..3 descriptors handed over in ONE call (or one + the rest) sorts
+// exactly like the same stack added one call at a time
+func vh_C19_BuilderBulk() {
+	bulk := 1 + vfChoose("split", 2)
+	if vfChoose("keys", 2) == 0 {
+		n := vfRange("n", 2, 2+vfTier()) // two records already separate "a key of the stack was dropped" from the full order
+		c19RunDescriptorsHow(n, []int{0, 1}, []bool{vfChoose("asc1", 2) == 1, vfChoose("asc2", 2) == 1}, vfChoose("byfield", 2) == 1, bulk)
+	} else {
+		c19RunDescriptorsHow(2+vfTier(), []int{2, 0, 1}, []bool{vfChoose("asc1", 2) == 1, true, vfChoose("asc3", 2) == 1}, false, bulk)
+	}
 }
 
 func vh_C19_CompareTo() {
